@@ -650,7 +650,7 @@ def bounded(tier, seed):
     syms = [("get", i) for i in range(4)] + [("add", j) for j in range(2)]
     b.rule = ("operation sequences over {get_cert for 4 name sets (exact, with extra SAN, sub-domain, no CN), add_cert of 2 custom certificates (exact name; wildcard SAN + wildcard name)} "
               f"on the real CertStore with STORE_CAP={cap} and the real dummy_cert; after every operation: bound, class invariant, returned entry is custom-and-matching or generated for exactly the "
-              "requested names, identity of repeated requests and cache contents equal to a FIFO model; distinct = sequence; non-trivial = more distinct generated requests than the capacity or a custom registration")
+              "requested names, identity of repeated requests and cache contents equal to a FIFO model; the SANs given as list/tuple/GeneralNames/generator/map/iter; distinct = sequence; non-trivial = more distinct generated requests than the capacity or a custom registration")
     b.bound = f"all sequences of length <= {depth} over 6 operations"
     b.exhaustive = True
     for n in range(1, depth + 1):
@@ -675,6 +675,43 @@ def bounded(tier, seed):
                 has_kf = has_kf or (op == "get" and reg and i in (0, 1))
             _run_sequence(b, seq, enames, empty, cap, kf=has_kf)
             b.case(("empty", seq))
+    # the requested names may be given as any iterable of general names (signature Iterable[x509.GeneralName]): lists, tuples,
+    # GeneralNames and one-shot iterators (generator, map, iter) must all give a certificate for exactly the requested names,
+    # stored under exactly that key
+    forms = {
+        "list": lambda vals: [x509.DNSName(v) for v in vals],
+        "tuple": lambda vals: tuple(x509.DNSName(v) for v in vals),
+        "GeneralNames": lambda vals: x509.GeneralNames([x509.DNSName(v) for v in vals]),
+        "generator": lambda vals: (x509.DNSName(v) for v in vals),
+        "map": lambda vals: map(x509.DNSName, vals),
+        "iter": lambda vals: iter([x509.DNSName(v) for v in vals]),
+    }
+    for fname, mk in forms.items():
+        for vals in (["one.example"], ["first.example", "second.example"], ["a.example", "b.example", "c.example"], []):
+            inp = {"sans_given_as": fname, "sans": vals}
+            b.case(("sans-form", fname, tuple(vals)))
+            try:
+                st = _new_store(cap)
+                r1 = st.get_cert("cn.example", mk(vals))
+                got = [str(a.value) for a in r1.cert.altnames]
+                if got != vals:
+                    b.fail("certstore.any_iterable.generated_for_exactly_requested_names", inp, f"certificate names {got}")
+                keys = [(k[0], [str(a.value) for a in k[1]]) for k in st.certs if isinstance(k, tuple)]
+                if keys != [("cn.example", vals)]:
+                    b.fail("certstore.any_iterable.stored_under_exactly_requested_key", inp, f"keys {keys}")
+                r2 = st.get_cert("cn.example", [x509.DNSName(v) for v in vals])
+                if r2 is not r1:
+                    b.fail("certstore.any_iterable.repeated_request_same_entry", inp, "list form of the same names got another certificate")
+                if vals:
+                    other = ["different.example"] + vals[1:]
+                    r3 = st.get_cert("cn.example", mk(other))
+                    if r3 is r1 or [str(a.value) for a in r3.cert.altnames] != other:
+                        b.fail("certstore.any_iterable.different_first_name_different_certificate", inp, f"names {[str(a.value) for a in r3.cert.altnames]} for request {other}")
+                c = certs.dummy_cert(key, ca, "cn.example", mk(vals))
+                if [str(a.value) for a in c.altnames] != vals:
+                    b.fail("dummy_cert.any_iterable.exactly_requested_names", inp, f"{[str(a.value) for a in c.altnames]}")
+            except Exception as e:
+                b.fail("certstore.any_iterable.total", inp, f"{type(e).__name__}: {e}")
     # asterisk_forms against the rule on many names (incl. empty labels, leading/trailing dots, > 3 dots)
     alphabet = ["a", "bb", "", "*"]
     for n in range(1, 6):
